@@ -28,15 +28,19 @@ func runWipe(env *execenv.Env) error {
 	}
 
 	env.Out.Println("cleaning git config ...")
-	err = env.Backend.ClearUserIdentity()
+	// The selected user identity is stored in the same section as the rest of the configuration.
+	// Removing a key or a section that doesn't exist is an error, so only remove what is there.
+	configs, err := env.Backend.LocalConfig().ReadAll("git-bug")
 	if err != nil {
 		_ = env.Backend.Close()
 		return err
 	}
-	err = env.Backend.LocalConfig().RemoveAll("git-bug")
-	if err != nil {
-		_ = env.Backend.Close()
-		return err
+	if len(configs) > 0 {
+		err = env.Backend.LocalConfig().RemoveAll("git-bug")
+		if err != nil {
+			_ = env.Backend.Close()
+			return err
+		}
 	}
 
 	storage := env.Backend.LocalStorage()
